@@ -167,6 +167,24 @@ def run_case(program, st):
 
     if res is not None:
         st.violation('validator:' + res[0], res[1], program)
+        return
+
+    # the same accepted calls with refused calls in between still give
+    # exactly these bytes
+    if len(program['calls']) <= 12:
+        data2, problem = roundtrip.write_program_with_refused_calls(program)
+
+        if problem is not None:
+            st.violation('with-refused-calls:' + problem[0], problem[1],
+                         program)
+        elif data2 != data:
+            i = next((k for k in range(min(len(data), len(data2)))
+                      if data[k] != data2[k]), min(len(data), len(data2)))
+            st.violation('with-refused-calls:bytes-differ',
+                         'at byte %d: %r vs %r' % (i, data[max(0, i - 20):
+                                                          i + 40],
+                                                   data2[max(0, i - 20):
+                                                         i + 40]), program)
 
 
 def boundary_chunks(tier, seed):
